@@ -2,6 +2,7 @@
 // from the line protocol of DESIGN.md §4.1 and prints the same canonical text as the Lean driver.
 // Build: g++ -std=c++17 -I/repo/src -DDIM=<d> -DPERIODIC=<0|1> [-DUSE_OMP -fopenmp mock_gomp.cpp] [-DUSE_STARPU -Imock_starpu mock_starpu.cpp]
 #include <iostream>
+#include <cmath>
 #include <sstream>
 #include <vector>
 #include <array>
@@ -336,6 +337,27 @@ int main(){
                 }
             }
         }
+        else if(op == "offs"){
+            // offs <n> <code per particle and dimension>: move each particle inside (or onto a face of) its cell before the next build
+            //   0 centre, 1 exactly on the lower face, 2 one ulp above the lower face, 3 one ulp below the upper face,
+            //   4 exactly on the upper face of the box (only meaningful in the last cell of a non-periodic box, else as 3)
+            const long n = std::stol(ts[1]);
+            const RealType w = RealType(1) / RealType(1L << (cs.H - 1));
+            const long last = (1L << (cs.H - 1)) - 1;
+            for(long i = 0 ; i < n && i < (long)cs.positions.size() ; ++i){
+                for(long d = 0 ; d < Dim ; ++d){
+                    const long c = long(cs.positions[i][d] / w);      // positions are cell centres at this point: the cell coordinate
+                    const long code = std::stol(ts[2 + i*Dim + d]);
+                    const RealType lo = RealType(c) * w, hi = RealType(c + 1) * w;
+                    RealType x = (RealType(c) + RealType(0.5)) * w;
+                    if(code == 1) x = lo;
+                    else if(code == 2) x = std::nextafter(lo, hi);
+                    else if(code == 3 || (code == 4 && (PERIODIC || c != last))) x = std::nextafter(hi, lo);
+                    else if(code == 4) x = hi;
+                    cs.positions[i][d] = x;
+                }
+            }
+        }
         else if(op == "idx"){
             idxCommand(*cs.config, ts);
         }
@@ -370,9 +392,13 @@ int main(){
         else if(op == "exec" && ts.size() > 1 && ts[1] == "omp"){
             // sched=<0 fifo|1 lifo|2 random|3 priority-inverted|4 priority> seed=<n> workers=<k>
             MockConfig mc; mc.schedule = int(kv(ts, "sched", 0)); mc.seed = (unsigned long)kv(ts, "seed", 1); mc.nworkers = int(kv(ts, "workers", 1));
-            mock_gomp_configure(mc);
+            // cworkers=<k>: the number of threads allowed while the executor object is constructed (it may differ from the
+            // number allowed when execute() runs: an executor reused after omp_set_num_threads)
+            MockConfig mcc = mc; mcc.nworkers = int(kv(ts, "cworkers", mc.nworkers));
+            mock_gomp_configure(mcc);
             std::unique_ptr<TbfOpenmpAlgorithm<RealType, Kernel, SpaceIndex>> algo(
                 new TbfOpenmpAlgorithm<RealType, Kernel, SpaceIndex>(*cs.config, kv(ts, "upper", 2)));
+            mock_gomp_configure(mc);
             mock_gomp_clear_history();
             algo->execute(*cs.tree, int(kv(ts, "flags", 63)));
             long nt = 0; mock_gomp_history(&nt);
@@ -483,6 +509,43 @@ int main(){
                     if((*found).first.get().getLeafSpacialIndex((*found).second) != i) std::cout << "X find leaf returned a handle to another leaf\n";
                 }
                 else std::cout << "F P " << i << " none\n";
+            }
+        }
+        else if(op == "find" && ts.size() > 2 && ts[1] == "parent"){
+            // getElementFromParentIndex on every group of level l: first cell of the group whose parent is the probe
+            const long l = std::stol(ts[2]);
+            auto& groups = cs.tree->getCellGroupsAtLevel(l);
+            for(size_t g = 0 ; g < groups.size() ; ++g){
+                for(size_t k = 3 ; k < ts.size() ; ++k){
+                    const long i = std::stol(ts[k]);
+                    auto found = groups[g].getElementFromParentIndex(cs.tree->getSpacialSystem(), i);
+                    if(found) std::cout << "F Q " << l << " " << g << " " << i << " " << (*found) << "\n";
+                    else std::cout << "F Q " << l << " " << g << " " << i << " none\n";
+                }
+            }
+        }
+        else if(op == "find" && ts.size() > 2 && ts[1] == "ingroup"){
+            // getElementFromSpacialIndex on every cell group of level l (and, at the leaf level, on every particle group)
+            const long l = std::stol(ts[2]);
+            auto& groups = cs.tree->getCellGroupsAtLevel(l);
+            for(size_t g = 0 ; g < groups.size() ; ++g){
+                for(size_t k = 3 ; k < ts.size() ; ++k){
+                    const long i = std::stol(ts[k]);
+                    auto found = groups[g].getElementFromSpacialIndex(i);
+                    if(found) std::cout << "F G " << l << " " << g << " " << i << " " << (*found) << "\n";
+                    else std::cout << "F G " << l << " " << g << " " << i << " none\n";
+                }
+            }
+            if(l == cs.tree->getHeight() - 1){
+                auto& pgroups = cs.tree->getParticleGroups();
+                for(size_t g = 0 ; g < pgroups.size() ; ++g){
+                    for(size_t k = 3 ; k < ts.size() ; ++k){
+                        const long i = std::stol(ts[k]);
+                        auto found = pgroups[g].getElementFromSpacialIndex(i);
+                        if(found) std::cout << "F H " << g << " " << i << " " << (*found) << "\n";
+                        else std::cout << "F H " << g << " " << i << " none\n";
+                    }
+                }
             }
         }
         else if(op == "end"){
